@@ -72,6 +72,7 @@ def check_unsort_pairs(ctx, fi, rule='R-PERM/unsort-pair'):
 
     for p in perms:
         sites = []
+        wrong_way = []
         # (a) for i, j in enumerate(p): OUT[j, ...] = X[i, ...]
         for lp in ast.walk(fi.node):
             if isinstance(lp, ast.For) and isinstance(
@@ -93,6 +94,9 @@ def check_unsort_pairs(ctx, fi, rule='R-PERM/unsort-pair'):
                         if getattr(t0, 'id', None) == j_v and getattr(
                                 v0, 'id', None) == i_v:
                             sites.append((st, st.value.value.id))
+                        elif getattr(t0, 'id', None) == i_v and getattr(
+                                v0, 'id', None) == j_v:
+                            wrong_way.append((st, st.value.value.id))
         # (b) OUT[p] = X  /  OUT[p, :] = X
         for st in ast.walk(fi.node):
             if isinstance(st, ast.Assign) and isinstance(
@@ -102,6 +106,31 @@ def check_unsort_pairs(ctx, fi, rule='R-PERM/unsort-pair'):
                 t0 = ti.elts[0] if isinstance(ti, ast.Tuple) else ti
                 if getattr(t0, 'id', None) == p:
                     sites.append((st, st.value.id))
+        # (c) OUT = X[p] / OUT[i] = X[p[i]] where X was read in the order
+        # sorted by p: that applies p a second time instead of undoing it
+        for st in ast.walk(fi.node):
+            if isinstance(st, ast.Assign) and isinstance(
+                    st.value, ast.Subscript) and isinstance(
+                        st.value.value, ast.Name):
+                vi = st.value.slice
+                v0 = vi.elts[0] if isinstance(vi, ast.Tuple) else vi
+                if getattr(v0, 'id', None) == p:
+                    wrong_way.append((st, st.value.value.id))
+        for (st, x) in wrong_way:
+            ns = [q for q in cfg.nodes_of(st) if q.id in rd.live]
+            if not ns:
+                continue
+            was_sorted, _bad = gathered_sorted(x, ns[0].id, p)
+            if not was_sorted:
+                continue
+            n += 1
+            ctx.touch(fi)
+            ctx.fail(rule, f'{fi.qual}:unsort#{n - 1}', fi.loc(st),
+                     f'`{unparse(st)[:60]}` indexes `{x}` -- read in the '
+                     f'order sorted by `{p}` -- with `{p}` itself: that '
+                     'applies the permutation a second time instead of '
+                     'undoing it (right only when the permutation is its '
+                     'own inverse)')
         for (st, x) in sites:
             ns = [q for q in cfg.nodes_of(st) if q.id in rd.live]
             if not ns:
@@ -118,4 +147,82 @@ def check_unsort_pairs(ctx, fi, rule='R-PERM/unsort-pair'):
                    f'`{unparse(bad.value)[:60] if bad is not None and getattr(bad, "value", None) is not None else "?"}`'
                    ', which is not read in the order sorted by that '
                    'permutation: the rows come back scrambled')
+    return n
+
+
+def check_sorted_results_unsorted(ctx, fi, rule='R-PERM/unsort-before-return'):
+    """a function that sorts its request (`idx = idx[np.argsort(idx)]`) and
+    keeps the inverse permutation works on the sorted request from then
+    on; what it hands back must have been put into the requested order
+    again, i.e. every `return` that follows the sorting is reached only
+    through a statement that reads the inverse permutation.  An early
+    return of data gathered in sorted order gives the caller the right
+    rows in the wrong order."""
+    cfg = cfg_of(fi)
+    rd = rd_of(fi)
+    # p = np.argsort(R); inv = np.argsort(p)  (or inverse filled by a loop)
+    perms = [d for d in rd.defs if d.kind == 'assign' and isinstance(
+        getattr(d, 'value', None), ast.Call) and _call_name(
+            d.value) == 'argsort' and not d.path]
+    pnames = {p.name for p in perms}
+    inverse = set()
+    for d in rd.defs:
+        v = getattr(d, 'value', None)
+        if d.kind != 'assign' or v is None or d.path:
+            continue
+        if isinstance(v, ast.Subscript) and isinstance(
+                v.value, ast.Name) and v.value.id == d.name:
+            continue        # X = X[p]: the sorting itself
+        if any(isinstance(x, ast.Name) and x.id in pnames
+               for x in ast.walk(v)):
+            # np.argsort(p), {p[i]: i for i in ...}, np.empty_like(p)...
+            inverse.add(d.name)
+    if not inverse:
+        return 0
+    # the request is re-bound to its sorted copy: X = X[p]
+    sort_nodes = set()
+    for d in rd.defs:
+        v = getattr(d, 'value', None)
+        if d.kind == 'assign' and isinstance(v, ast.Subscript) \
+                and isinstance(v.value, ast.Name) \
+                and v.value.id == d.name and isinstance(
+                    v.slice, ast.Name) and any(
+                        p.name == v.slice.id for p in perms):
+            sort_nodes.add(d.node)
+    if not sort_nodes:
+        return 0
+    uses_inverse = {n.id for n in cfg.nodes if n.id in rd.live and any(
+        isinstance(x, ast.Name) and x.id in inverse
+        and isinstance(x.ctx, ast.Load)
+        for root in n.exprs if root is not None for x in ast.walk(root))}
+    # a loop that applies the inverse permutation element by element
+    # counts as applying it (zero iterations = nothing to put back)
+    for loop in ast.walk(fi.node):
+        if isinstance(loop, (ast.For, ast.While)) and any(
+                isinstance(x, ast.Name) and x.id in inverse
+                for st in loop.body for x in ast.walk(st)):
+            uses_inverse |= {x.id for x in cfg.nodes_of(loop)
+                             if x.kind in ('for', 'while')}
+    n = 0
+    for r in cfg.nodes:
+        if r.kind != 'return' or r.id not in rd.live:
+            continue
+        # reachable from the sorting?
+        for s in sort_nodes:
+            if not (cfg.path(s, {r.id}, edge_ok=lambda a, b, lab: lab
+                             != 'exc') is not None):
+                continue
+            n += 1
+            p = cfg.path(s, {r.id}, avoid=lambda x: x.id in uses_inverse
+                         and x.id != r.id,
+                         edge_ok=lambda a, b, lab: lab != 'exc')
+            ok = p is None or r.id in uses_inverse
+            ctx.touch(fi)
+            ctx.ob(rule, f'{fi.qual}:return#{n - 1}', fi.loc(r.ast), ok,
+                   'the result is put back into the requested order before '
+                   'it is returned' if ok else
+                   f'`{unparse(r.ast)[:60]}` is reached from the sorting '
+                   'of the request without the inverse permutation being '
+                   'applied: the rows come back in sorted, not requested, '
+                   'order', witness=cfg.fmt_path(p) if p else None)
     return n
